@@ -21,9 +21,9 @@ Prog = collections.namedtuple('Prog', 'outer calls context route taint')
 CONTEXTS = ('return', 'assign', 'if', 'ifelse', 'tryfinally', 'tryexcept', 'with', 'listcomp',
             'nested', 'lambda', 'decoy_before', 'decoy_after',
             'arg_of_call', 'nested_arg_of_call', 'lambda_arg_of_call', 'nested2', 'result_attr', 'ifelse_unres',
-            'nested_ifelse_arg', 'decoy_shadow_nonlocal', 'shadow_nested', 'shadow_async', 'shadow_comp', 'forloop', 'nested_lambda')
+            'nested_ifelse_arg', 'decoy_shadow_nonlocal', 'shadow_nested', 'shadow_async', 'shadow_comp', 'forloop', 'nested_lambda', 'ifelse_same')
 NESTED_CONTEXTS = ('nested', 'lambda', 'nested_arg_of_call', 'lambda_arg_of_call', 'nested2', 'nested_ifelse_arg', 'nested_lambda')
-TWO_BRANCH_CONTEXTS = ('ifelse', 'ifelse_unres', 'nested_ifelse_arg')
+TWO_BRANCH_CONTEXTS = ('ifelse', 'ifelse_unres', 'nested_ifelse_arg', 'ifelse_same')
 # the call is written with the wrapper's star names, but in a scope where those names are bound to something else (the
 # parameters of a nested function, the targets of a comprehension): nothing of the wrapper's is forwarded
 SHADOW_CONTEXTS = ('shadow_nested', 'shadow_async', 'shadow_comp')
@@ -39,7 +39,7 @@ def star(outer, kind):
 
 def callee_ref(route, uid, j):
     base = 'C%s_%d' % (uid, j)
-    if route in ('global', 'wrapsdeco'):
+    if route in ('global', 'wrapsdeco', 'wrapssig'):
         return base
     if route == 'closure':
         return 'cal%d' % j
@@ -69,7 +69,8 @@ def call_expr(prog, uid, j):
         parts.append('**' + vk_name)
     if cs.vk in ('other', 'both'):
         parts.append('**OTHER_K')
-    ref = callee_ref(prog.route, uid, j)
+    # 'ifelse_same': both branches call the very same callee object, with different written arguments
+    ref = callee_ref(prog.route, uid, 0 if prog.context == 'ifelse_same' else j)
     if prog.context == 'ifelse_unres' and j == 1:
         ref = 'UNRES%s[0]' % uid         # a callee no static reading can resolve
     if prog.route == 'partial':
@@ -139,7 +140,7 @@ def body_lines(prog, uid):
     before = taint_stmts(prog) if prog.taint and prog.taint[2] == 'before' else []
     after = taint_stmts(prog) if prog.taint and prog.taint[2] == 'after' else []
     e0 = E[0]
-    if ctx in ('ifelse', 'ifelse_unres'):
+    if ctx in ('ifelse', 'ifelse_unres', 'ifelse_same'):
         e1 = E[1] if len(E) > 1 else E[0]
         core = ['if FLAG:', '    r = ' + e0, 'else:', '    r = ' + e1]
     elif ctx == 'nested_ifelse_arg':
@@ -280,6 +281,13 @@ def render(prog, uid):
         else:
             lines.append('W%s = functools.partial(F%s, fn0=C%s_0)' % (uid, uid, uid))
         return '\n'.join(lines) + '\n'
+    if prog.route == 'wrapssig':
+        # functools.wraps over a function that carries an explicit __signature__ (with star parameters) of its own: wraps
+        # copies it into the wrapper's __dict__, where it says nothing about what the wrapper's body does
+        lines.append('def OLD%s(q_, *rest_, **opts_):' % uid)
+        lines.append(ind + 'return 0')
+        lines.append('OLD%s.__signature__ = inspect.signature(OLD%s)' % (uid, uid))
+        lines.append('@functools.wraps(OLD%s)' % uid)
     if prog.route == 'wrapsdeco':
         # the same wrapper under a decorator that only wraps (functools.wraps + pass-through)
         lines.append('@ONLYWRAP')
@@ -293,12 +301,15 @@ def target(batch, prog, uid):
     if prog.route == 'method':
         cls = batch.get('K%s' % uid)
         inst = cls()
-        return getattr(inst, 'W%s' % uid), [getattr(inst, 'C%s_%d' % (uid, j)) for j in range(len(prog.calls))], inst
+        same = prog.context == 'ifelse_same'
+        return (getattr(inst, 'W%s' % uid), [getattr(inst, 'C%s_%d' % (uid, 0 if same else j)) for j in range(len(prog.calls))],
+                inst)
     if prog.route == 'method_default':
         inst = batch.get('K%s' % uid)()
         return getattr(inst, 'W%s' % uid), [batch.get('C%s_%d' % (uid, j)) for j in range(len(prog.calls))], inst
     w = batch.get('W%s' % uid)
-    return w, [batch.get('C%s_%d' % (uid, j)) for j in range(len(prog.calls))], None
+    same = prog.context == 'ifelse_same'
+    return w, [batch.get('C%s_%d' % (uid, 0 if same else j)) for j in range(len(prog.calls))], None
 
 
 # ---------------------------------------------------------------------------
